@@ -318,11 +318,18 @@ def decode_attack(data):
 
 def shards(tier):
     quick = tier == "quick"
-    return [{"kind": "hyp", "n": 2500 if quick else 60000} for _ in range(16)]
+    return [{"kind": "hyp", "n": 2500 if quick else 60000} for _ in range(16)] + [{"kind": "long"}]
 
 
 def run_shard(desc, seed, tier):
     acc = Acc()
+    if desc["kind"] == "long":
+        for text in soup.long_docs():
+            for walker in ("etree", "dom"):
+                case = {"text": text, "mask": 0 if walker == "etree" else 9331, "walker": walker, "container": None}
+                acc.add(case, check_case(case))
+        return acc
+
     strat = st.tuples(sized_binary(8, 120), st.one_of(st.just(0), st.just(0), st.integers(1, 2 ** 20 - 1)), st.sampled_from(["etree", "etree", "dom"]),
                       st.one_of(st.none(), st.none(), st.sampled_from(["div", "svg", "td", "select", "p"])))
 
